@@ -55,9 +55,9 @@ var expectedProbes = map[string][]string{
 	"C07": {"receiver.FRESH", "receiver.READY", "receiver.CHOOSING", "receiver.PENDING", "receiver.ENDED", "receiver.sibling_path", "receiver.restored_before", "two_receivers_of_one_snapshot", "restored_from_a_rebuilt_copy_of_the_snapshot", "restore_of_a_hollow_snapshot_refused", "start_in_an_untitled_node_with_nothing_to_save"},
 	"C09": {"trace_with_error_texts", "seeded_run_with_a_restore"},
 	"C10": {"shape.raw_prefilled", "shape.raw_buffered", "shape.raw_unbuffered", "shape.conv_none", "shape.conv_error", "shape.conv_chan", "shape.conv_rochan", "wait_polled_one_tick_before_deadline", "command_error_surfaced", "command_polled_over_1000_times"},
-	"C11": {"node_left_three_times", "untracked_node_visited", "restore_then_jump", "world_with_failing_jumps", "node_left_over_127_times", "pass_through_node_traversed"},
+	"C11": {"node_left_three_times", "untracked_node_visited", "restore_then_jump", "world_with_failing_jumps", "node_left_over_127_times", "pass_through_node_traversed", "restore_refused_then_counting_goes_on"},
 	"C12": {"ended_by_stop_or_node_end", "end_with_statements_still_queued", "post_end_call_with_out_of_range_argument", "stop_inside_block_chain_6_to_12_deep", "host_registered_a_stop_command", "world_with_failing_statements_on_the_way", "restore_refused_after_the_end"},
-	"C14": {"history_with_failed_parse_in_the_middle", "history_repeats_an_earlier_line", "history_over_32_lines_then_the_first_again", "same_line_shown_again_after_32_other_inputs", "marked_up_option_group_shown_again", "one_statement_shown_with_different_substituted_text"},
+	"C14": {"history_with_failed_parse_in_the_middle", "history_repeats_an_earlier_line", "history_over_32_lines_then_the_first_again", "same_line_shown_again_after_32_other_inputs", "marked_up_option_group_shown_again", "one_statement_shown_with_different_substituted_text", "interpolation_failed_right_before_an_interpolated_line"},
 	"C18": {"burst_inside_storer_read", "burst_inside_host_function", "burst_inside_command_handler", "runner_created_between_steps_of_another", "aborted_load_before_a_creation"},
 	"C20": {"queue_grew_while_wrapped", "queue_grew_while_wrapped_twice", "stream_with_more_than_8_indents"},
 }
